@@ -1,6 +1,6 @@
 (* ArgSpec.v — specification of the argument language of a command definition (definitions only):
    "optional tag groups in any order (each tag possibly followed by a typed parameter), then the
-   required positional arguments in order".  This is what the property texts call legal,
+   required positional arguments in order"; a slot filled again takes the later tag and only its parameter.  This is what the property texts call legal,
    correctly typed and correctly ordered arguments; ArgCheckFacts.v proves that the table
    interpreter check_next_arg/iscomplete implements it for well-formed definitions. *)
 From Coq Require Import List NArith Bool.
@@ -102,28 +102,30 @@ Fixpoint legal_opt (fuel : nat) (opts reqs : list argdef) (args : list argument)
               | Some (c :: e) =>
                   if mem (c :: e) loaded then
                     let am' := assoc_set (a_name s) (VStr v) am in
+                    let em' := assoc_del (a_name s) em in
                     match takes_param s v with
-                    | None => legal_opt f opts reqs args' loaded am' em
+                    | None => legal_opt f opts reqs args' loaded am' em'
                     | Some ex =>
                         match args' with
-                        | [] => LIncomplete am' em
+                        | [] => LIncomplete am' em'
                         | p :: args'' =>
                             if param_ok ex p
-                            then legal_opt f opts reqs args'' loaded am' (assoc_set (a_name s) (snd p) em)
+                            then legal_opt f opts reqs args'' loaded am' (assoc_set (a_name s) (snd p) em')
                             else LReject (Some EBadValue)
                         end
                     end
                   else LReject (Some (EExtNotLoaded (c :: e)))
               | _ =>
                   let am' := assoc_set (a_name s) (VStr v) am in
+                  let em' := assoc_del (a_name s) em in
                   match takes_param s v with
-                  | None => legal_opt f opts reqs args' loaded am' em
+                  | None => legal_opt f opts reqs args' loaded am' em'
                   | Some ex =>
                       match args' with
-                      | [] => LIncomplete am' em
+                      | [] => LIncomplete am' em'
                       | p :: args'' =>
                           if param_ok ex p
-                          then legal_opt f opts reqs args'' loaded am' (assoc_set (a_name s) (snd p) em)
+                          then legal_opt f opts reqs args'' loaded am' (assoc_set (a_name s) (snd p) em')
                           else LReject (Some EBadValue)
                       end
                   end
